@@ -115,7 +115,10 @@ static void run(int tier, long idx, vf_result *r)
 	vf_fail(r, "create", "vnacal_create failed: errno %d", errno);
 	return;
     }
-    if (cs_make_params(vcp, &sc) != 0) {
+    cs_vector_on_cal = pv;	/* half of the cases: knots on the grid */
+    int mprc = cs_make_params(vcp, &sc);
+    cs_vector_on_cal = 0;
+    if (mprc != 0) {
 	vf_fail(r, "make-param", "parameter creation failed: %s",
 		elog.count ? elog.msg[0] : "?");
 	goto out;
@@ -142,6 +145,21 @@ static void run(int tier, long idx, vf_result *r)
 		margin, eqs, unk);
 	goto out;
     }
+    /*
+     * one more (redundant, consistent) standard and a second solve on the
+     * same object: every parameter is evaluated again from the lowest
+     * frequency on
+     */
+    if (cs_add_std(vnp, &sc, 0) != 0 || vnacal_new_solve(vnp) != 0) {
+	char sig[100];
+	snprintf(sig, sizeof(sig), "resolve-failed:%s",
+		vnacal_type_to_name(types[t]));
+	vf_fail(r, sig, "adding the first standard a second time and solving "
+		"again failed (errno %d: %s)", errno,
+		elog.count ? elog.msg[0] : "");
+	goto out;
+    }
+    r->transitions += 2;
     int ci = vnacal_add_calibration(vcp, "c01", vnp);
     ++r->transitions;
     if (ci < 0) {
